@@ -103,7 +103,8 @@ Theorem C07_step_refines : forall al a o,
   Inv a -> op_wf o ->
   match al_step al a o with
   | AOk a' r rel ws =>
-      Inv a' /\ al_abs a' = fst (spec_step (al_abs a) o) /\ rel = snd (spec_step (al_abs a) o) /\ r = 0 /\
+      Inv a' /\ al_abs a' = fst (spec_step (al_abs a) o) /\ rel = snd (spec_step (al_abs a) o) /\
+      r = spec_ret (al_abs a) o /\
       Forall (wr_ok (asize a')) ws /\ spec_ok (al_abs a) o = true
   | AFail a' => a' = a
   | AUB => False
@@ -156,38 +157,92 @@ Proof. exact lifecycle_refines. Qed.
 Print Assumptions C07_lifecycle_refines.
 
 (* every non-NULL element handed over by an accepted operation is released exactly once,
-   during the history or by array_list_free *)
+   during the history or by array_list_free (elements are named by their value, so this is
+   stated for histories without in-place value changes) *)
 Theorem C07_released_once : forall al n ops a0,
-  al_new2 al n = NOk a0 -> Forall op_wf ops ->
+  al_new2 al n = NOk a0 -> Forall op_wf ops -> Forall no_setval ops ->
   exists q oks rs fr, al_run al a0 ops = Some (q, oks, rs) /\ al_free q = Some fr /\
                       Permutation (given_run ops oks) (rs ++ fr).
 Proof. exact released_once. Qed.
 Print Assumptions C07_released_once.
 
 (* sorting: a permutation, ordered by the comparator; and that result is the only one *)
-Theorem C07_sort_perm_sorted : forall l : list elt,
-  Permutation l (EltSort.sort l) /\ StronglySorted elt_le (EltSort.sort l).
+Theorem C07_sort_perm_sorted : forall c (l : list elt),
+  Permutation l (sort_by c l) /\ StronglySorted (le_by c) (sort_by c l).
 Proof. exact sort_perm_sorted. Qed.
 Print Assumptions C07_sort_perm_sorted.
 
-Theorem C07_sorted_perm_unique : forall l1 l2 : list elt,
-  Permutation l1 l2 -> StronglySorted elt_le l1 -> StronglySorted elt_le l2 -> l1 = l2.
+Theorem C07_sorted_perm_unique : forall c (l1 l2 : list elt),
+  Permutation l1 l2 -> StronglySorted (le_by c) l1 -> StronglySorted (le_by c) l2 -> l1 = l2.
 Proof. exact sorted_perm_unique. Qed.
 Print Assumptions C07_sorted_perm_unique.
 
 (* binary search on a sorted array finds the key iff it is an element *)
-Theorem C07_bsearch_iff : forall a k,
+Theorem C07_bsearch_iff : forall c a k,
   Inv a ->
-  exists b, al_bsearch a k = Some b /\
-            (StronglySorted elt_le (al_abs a) -> (b = true <-> In k (al_abs a))).
+  exists b, al_bsearch c a k = Some b /\
+            (StronglySorted (le_by c) (al_abs a) -> (b = true <-> In k (al_abs a))).
 Proof. exact bsearch_spec. Qed.
 Print Assumptions C07_bsearch_iff.
 
-Theorem C07_sort_then_bsearch : forall a k a' r rel ws,
-  Inv a -> al_sort a = AOk a' r rel ws ->
-  exists b, al_bsearch a' k = Some b /\ (b = true <-> In k (al_abs a)).
+Theorem C07_sort_then_bsearch : forall c a k a' r rel ws,
+  Inv a -> al_sort c a = AOk a' r rel ws ->
+  exists b, al_bsearch c a' k = Some b /\ (b = true <-> In k (al_abs a)).
 Proof. exact sort_then_bsearch. Qed.
 Print Assumptions C07_sort_then_bsearch.
+
+(* ---- sort / search after ANY history: sorting has no hidden state ---- *)
+
+(* an element's value changed in place (json_object_set_int64 on an element and the like) is a
+   point update of the list; the array itself is not involved *)
+Theorem C07_setval_refine : forall a i v,
+  Inv a -> 0 <= i ->
+  match al_setval a i v with
+  | AOk a' r rel ws =>
+      Inv a' /\ al_abs a' = ssetval (al_abs a) i v /\ rel = [] /\
+      r = (match sget (al_abs a) i with Some _ => 1 | None => 0 end) /\ ws = [] /\
+      asize a' = asize a /\ alen a' = alen a
+  | AFail _ => False
+  | AUB => False
+  end.
+Proof. exact setval_spec. Qed.
+Print Assumptions C07_setval_refine.
+
+(* in every state the invariant allows (whatever was sorted, searched, stored or changed
+   before) a sort by comparator c yields a permutation of the CURRENT contents ordered by c *)
+Theorem C07_sort_any_state : forall c a,
+  Inv a ->
+  exists a' rel ws, al_sort c a = AOk a' 0 rel ws /\ Inv a' /\ rel = [] /\
+                    Permutation (al_abs a) (al_abs a') /\ StronglySorted (le_by c) (al_abs a') /\
+                    alen a' = alen a /\ asize a' = asize a.
+Proof. exact sort_any_state. Qed.
+Print Assumptions C07_sort_any_state.
+
+(* the result is a function of the current contents and the comparator alone *)
+Theorem C07_sort_depends_only_on_contents : forall c a1 a2 a1' a2' r1 r2 rel1 rel2 ws1 ws2,
+  Inv a1 -> Inv a2 -> al_abs a1 = al_abs a2 ->
+  al_sort c a1 = AOk a1' r1 rel1 ws1 -> al_sort c a2 = AOk a2' r2 rel2 ws2 ->
+  al_abs a1' = al_abs a2'.
+Proof. exact sort_depends_only_on_contents. Qed.
+Print Assumptions C07_sort_depends_only_on_contents.
+
+(* sorting twice: the second sort is the identity exactly because the contents are ordered, not
+   because a sort happened before *)
+Theorem C07_sort_sorted_id : forall c a a' r rel ws,
+  Inv a -> StronglySorted (le_by c) (al_abs a) -> al_sort c a = AOk a' r rel ws -> al_abs a' = al_abs a.
+Proof. exact sort_sorted_id. Qed.
+Print Assumptions C07_sort_sorted_id.
+
+(* for all histories (all mutators, earlier sorts by either comparator, in-place value changes,
+   all allocator behaviours, all initial capacities): sort, then search *)
+Theorem C07_sort_after_any_history : forall al n ops a0 c k,
+  al_new2 al n = NOk a0 -> Forall op_wf ops ->
+  exists q oks rs q' ws b,
+    al_run al a0 ops = Some (q, oks, rs) /\ al_sort c q = AOk q' 0 [] ws /\
+    Permutation (al_abs q) (al_abs q') /\ StronglySorted (le_by c) (al_abs q') /\
+    al_bsearch c q' k = Some b /\ (b = true <-> In k (al_abs q)).
+Proof. exact sort_after_any_history. Qed.
+Print Assumptions C07_sort_after_any_history.
 
 (* non-vacuity: a concrete history from capacity 0 with growth, a gap, a shift, a range delete,
    two refused operations, a sort, a shrink, searches and the final release *)
@@ -196,10 +251,22 @@ Theorem C07_nonvacuous :
     al_new2 (fun _ => true) 0 = NOk a0 /\
     al_run (fun _ => true) a0
       [OAdd (Some 5); OAdd (Some 3); OPut 4 (Some 9); OInsert 1 (Some 7); OPut 0 (Some 6);
-       ODel 2 2; ODel 9 1; OSort; OShrink 0; OPut SIZE_MAX (Some 1)] = Some (q, oks, rs) /\
+       ODel 2 2; ODel 9 1; OSort Asc; OShrink 0; OPut SIZE_MAX (Some 1)] = Some (q, oks, rs) /\
     al_abs q = [None; Some 6; Some 7; Some 9] /\ rs = [5; 3] /\ asize q = 4 /\
     oks = [true; true; true; true; true; true; false; true; true; false] /\
-    al_bsearch q (Some 7) = Some true /\ al_bsearch q (Some 8) = Some false /\
+    al_bsearch Asc q (Some 7) = Some true /\ al_bsearch Asc q (Some 8) = Some false /\
     al_get q 4 = GOk None /\ al_free q = Some [6; 7; 9].
 Proof. exact run_nontrivial. Qed.
 Print Assumptions C07_nonvacuous.
+
+(* non-vacuity of the re-sort theorems: sort, change two values in place, sort again by the
+   same comparator (twice), then by the other one *)
+Theorem C07_resort_nonvacuous :
+  exists q oks rs,
+    al_run (fun _ => true) (mkal [] 0 0)
+      [OAdd (Some 5); OAdd (Some 1); OAdd None; OAdd (Some 3); OSort Asc; OSetVal 1 9; OSetVal 0 4;
+       OSort Asc; OSort Asc; OSort Desc] = Some (q, oks, rs) /\
+    al_abs q = [Some 9; Some 5; Some 3; None] /\
+    al_bsearch Desc q (Some 9) = Some true /\ al_bsearch Desc q (Some 1) = Some false.
+Proof. exact resort_nontrivial. Qed.
+Print Assumptions C07_resort_nonvacuous.
